@@ -80,12 +80,7 @@ package atree
 //@   modifies ghost.sto, ghost.stored, ghost.touched, alloc, as(valueRoot(recv), *ArrayDataSlab).header, as(valueRoot(recv), *ArrayDataSlab).inlined, as(valueRoot(recv), *MapDataSlab).header, as(valueRoot(recv), *MapDataSlab).inlined
 
 //@ # ---- Storable (caller-supplied or atree's own): copying and inspection do not write atree-internal state (A2)
-//@ iface Storable.CopyNonRefSimple() (s, err)
-//@   ensures err == nil ==> s != nil
-//@   modifies alloc
-
-//@ iface Storable.CanCopyNonRefSimple() (r)
-//@   pure
+//@ # (Storable.CopyNonRefSimple / CanCopyNonRefSimple: see verif_contracts_copy.go)
 
 //@ # refsEnumerated: ghost counter of references (SlabIDStorable) on which ChildStorables has been invoked; the health check invokes it
 //@ # on every storable it enumerates, so the counter is the number of references it has seen
